@@ -122,6 +122,9 @@ class Adapter(EnvAdapter):
                 c("r23_cell", "random", 2, 3, "cell", episodes=4, probe_cap=20),        # 5 x 7 grid
                 c("toyrot_cell", "toy_rot", 2, 2, "cell", episodes=4, probe_cap=24),
                 c("toynorot_block", "toy_norot", 2, 2, "block", episodes=4, probe_cap=24),
+                # more than 127 blocks (identifiers up to 132 on the grid), highest identifiers first; no probes
+                c("r12_11_block", "random", 12, 11, "block", episodes=1, max_steps=5, probe_every=0, policies=["high_first"],
+                  post_terminal=0, props=["C03", "C06", "C07", "C09"]),
             ]
         return [
             c("r55_cell", "random", 5, 5, "cell", episodes=12, probe_cap=12, default_ctor=True),
@@ -138,6 +141,9 @@ class Adapter(EnvAdapter):
             c("r43_block", "random", 4, 3, "block", episodes=16, probe_cap=20),
             c("r15_cell", "random", 1, 5, "cell", episodes=20, probe_cap=30),
             c("r66_cell", "random", 6, 6, "cell", episodes=3, probe_cap=6, policies=["solution", "mostly_masked"]),
+            # more than 127 blocks (identifiers up to 132 on the grid), highest identifiers first; no probes
+            c("r12_11_block", "random", 12, 11, "block", episodes=1, max_steps=8, probe_every=0, policies=["high_first"],
+              post_terminal=0, props=["C03", "C06", "C07", "C09"]),
             c("toyrot_cell", "toy_rot", 2, 2, "cell", episodes=12, probe_cap=72),
             c("toyrot_block", "toy_rot", 2, 2, "block", episodes=8, probe_cap=48),
             c("toynorot_block", "toy_norot", 2, 2, "block", episodes=12, probe_cap=72),
@@ -211,6 +217,22 @@ class Adapter(EnvAdapter):
 
     # ---- policies -------------------------------------------------------------------------
     def choose(self, policy, env, state, obs, rng, i):
+        if policy == "high_first":
+            # the blocks with the highest identifiers first, each as close as the mask allows to the previous placement
+            # (on top of it, if the mask allowed that)
+            m = np.asarray(obs.action_mask)
+            legal_blocks = np.flatnonzero(m.reshape(m.shape[0], -1).any(axis=1))
+            if len(legal_blocks) == 0:
+                return self.random_actions(env, rng, 1)[0]
+            ids = np.asarray(state.blocks).reshape(m.shape[0], -1).max(axis=1)     # the identifier a block writes on the grid
+            b = int(legal_blocks[np.argmax(ids[legal_blocks])])
+            opts = np.argwhere(m[b])
+            if i == 0:
+                self._last_rc = opts[rng.integers(0, len(opts))][1:]
+            d = np.abs(opts[:, 1:] - np.asarray(self._last_rc)).sum(axis=1)
+            k, r, c = opts[int(np.argmin(d))]
+            self._last_rc = (r, c)
+            return np.asarray([b, k, r, c], dtype=env.action_spec.dtype)
         if policy == "solution":
             # follow a witness: the action-space tiling if there is one, else the expressible part of the free tiling
             (fst, fsol), (ast, asol) = self.solutions(state)
